@@ -173,6 +173,9 @@ pub fn deviations(cfg: &Cfg, alpha: Alpha, g: &Getters, _st: &State, last_layer:
         ops.push(Op::PM(1, true)); // only channel 0
         ops.push(Op::PM(0, true)); // all off
         ops.push(Op::PM(all & !2, false));
+        // end-of-stream call under a mask, the inactive channel supplied with frames / empty
+        ops.push(Op::PPM(all & !1, 1, false));
+        ops.push(Op::PPM(all & !2, 1, true));
     } else {
         ops.push(Op::PM(0, true));
         ops.push(Op::PM(1, false));
